@@ -18,99 +18,217 @@ KINDS = "_Bool, char, signed char, unsigned char, short, unsigned short, int, un
         "unsigned long long, float, double, long double"
 
 
-def loops(n, nsub, maxsize):
+KC_ANY, KC_C, KC_B, KC_S, KC_I, KC_L, KC_F, KC_D, KC_LD = range(9)
+KC_NAME = {KC_ANY: "any", KC_C: "c", KC_B: "b", KC_S: "s", KC_I: "i", KC_L: "l", KC_F: "f", KC_D: "d", KC_LD: "ld"}
+KC_SIZE = {KC_ANY: 1, KC_C: 1, KC_B: 1, KC_S: 2, KC_I: 4, KC_L: 8, KC_F: 4, KC_D: 8, KC_LD: 16}
+KC_DESC = {KC_ANY: "any arithmetic type", KC_C: "char/signed char/unsigned char", KC_B: "_Bool", KC_S: "short/unsigned short",
+           KC_I: "int/unsigned", KC_L: "long/unsigned long/long long/unsigned long long", KC_F: "float", KC_D: "double",
+           KC_LD: "long double"}
+
+
+def loops(n, nsub, scan):
     m = n + 1
-    return {"h_build_graph#0": m, "h_build_graph#1": nsub + 1, "h_nd_description#0": m, "h_nd_description#1": nsub + 1,
+    return {"h_build_graph#0": m, "h_build_graph#1": nsub + 1, "h_nd_description#0": m, "h_nd_description#1": nsub + 1, "h_nd_description#2": m,
             "h_mk_aggr#0": m, "h_mk_aggr#1": nsub + 1,
-            "sv_layout#0": m, "h_has_named#0": m,
+            "sv_layout#0": max(m, nsub + 1), "h_has_named#0": max(m, nsub + 1),
             **{"harness#%d" % k: max(m, nsub + 1, 3) for k in range(8)},
-            "sv_classify_agg#0": m, "sv_classify_agg#1": 4, "sv_classify_agg#2": 4, "sv_pass_arg#0": 3, "sv_pass_arg#1": 3,
-            "set_type_layout#0": m, "aux_set_type_align#0": m, "update_members_offset#0": nsub + 1,
+            "sv_classify_agg#0": max(m, nsub + 1), "sv_classify_agg#1": 4, "sv_classify_agg#2": 4, "sv_pass_arg#0": 3, "sv_pass_arg#1": 3,
+            "set_type_layout#0": max(m, nsub + 1), "aux_set_type_align#0": max(m, nsub + 1), "update_members_offset#0": nsub + 1,
             "incomplete_type_p#0": 2, "DLIST_node_t_el#0": 5, "DLIST_node_t_el#1": 5,
-            "update_field_layout#0": maxsize + 18,
-            "classify_arg#0": 3, "classify_arg#1": 3, "classify_arg#2": m, "classify_arg#3": 3, "classify_arg#4": 3,
+            "update_field_layout#0": scan,
+            "classify_arg#0": 3, "classify_arg#1": 3, "classify_arg#2": max(m, nsub + 1), "classify_arg#3": 3, "classify_arg#4": 3,
             "process_ret_type#0": 3, "process_aggregate_arg#0": 3, "get_blk_type#0": 3}
 
 
-def shape_name(shape):
-    return "-".join(CLS_NAME[c & 7] + ("[]" if c & ARR else "") for c in shape)
+def member_name(c, k, ksub):
+    cls = c & 7
+    if cls == ARITH:
+        nm = KC_NAME[k]
+    elif cls in AGGR:
+        nm = CLS_NAME[cls] + "{" + ",".join(KC_NAME[x] for x in ksub) + "}"
+    else:
+        nm = CLS_NAME[cls]
+    return nm + ("[]" if c & ARR else "")
 
 
-def witness_defs(mode, shape, feat, top, nsub):
+def member_desc(c, k, ksub):
+    cls = c & 7
+    if cls == ARITH:
+        d = KC_DESC[k]
+    elif cls in AGGR:
+        d = CLS_DESC[cls] + " { " + "; ".join(KC_DESC[x] for x in ksub) + " }"
+    else:
+        d = CLS_DESC[cls]
+    return d + (" [1..%d]" % (2 if cls in AGGR else 3) if c & ARR else "")
+
+
+def witness_defs(mode, shape, kcls, feat, top, nsub, excl, maxsize):
     """Which reachability witnesses exist for this (concrete) shape: only those some declaration of the shape reaches."""
     n = len(shape)
     cls = [c & 7 for c in shape]
     arr = [bool(c & ARR) for c in shape]
-    bfcap = [bool(feat & F_BF) and cls[i] in (ARITH, ENUM) and not arr[i] for i in range(n)]
-    aggr = [c in AGGR for c in cls]
-    uni = [c in (NESTED_U, ANON_U) for c in cls]
-    plain = [cls[i] == ARITH and not arr[i] for i in range(n)]
+    intk = [kcls[i] in (KC_ANY, KC_C, KC_B, KC_S, KC_I, KC_L) for i in range(n)]
+    bfcap = [bool(feat & F_BF) and ((cls[i] == ARITH and intk[i]) or cls[i] == ENUM) and not arr[i] for i in range(n)]
     d = {}
     if mode == 0:
         d["H_W_BF"] = any(bfcap) and n >= 2
-        d["H_W_BF2"] = any(bfcap[i] and bfcap[i + 1] for i in range(n - 1))
+        # two adjacent bit-fields of which the second can overflow the unit of its type
+        d["H_W_BF2"] = any(bfcap[i] and bfcap[i + 1] and kcls[i + 1] != KC_B for i in range(n - 1))
         d["H_W_ARR"] = any(arr)
         d["H_W_NESTED"] = NESTED in cls or NESTED_U in cls
         d["H_W_ANON"] = ANON in cls or ANON_U in cls
     else:
-        d["H_W_MEM"] = (ARITH in cls and n >= 2) or any(arr[i] and cls[i] == ARITH for i in range(n)) or \
-                       (any(aggr[i] and not uni[i] for i in range(n)) and nsub >= 2) or (any(uni) and n >= 2)
-        d["H_W_MEM16"] = (top == 1 and n >= 2 and any(plain)) or (any(uni) and nsub >= 2 and (n == 1 or top == 1))
-        d["H_W_SS"] = (n == 2 and all(plain) and top == 0) or \
-                      (n == 1 and ((aggr[0] and not uni[0] and not arr[0] and nsub >= 2) or (arr[0] and cls[0] == ARITH)))
-        d["H_W_IS"] = (n == 2 and all(plain) and top == 0) or (n == 1 and aggr[0] and not uni[0] and not arr[0] and nsub >= 2)
-        d["H_W_X87"] = n == 1 and (cls[0] == ARITH or uni[0] or (aggr[0] and feat & F_BF and not feat & F_SUBARR))
-        minsz = sum({ARITH: 1, PTR: 8, ENUM: 4}.get(c, 1 if c in (NESTED_U, ANON_U) else nsub) for c in cls)
-        d["H_W_I1"] = top == 1 or minsz <= 8
+        # leaf members: (size class, can be a bit-field, array)
+        leaves, simple = [], True
+        for i in range(n):
+            if cls[i] == ARITH:
+                leaves.append((kcls[i], bfcap[i], arr[i]))
+            elif cls[i] in (PTR, ENUM):
+                leaves.append((KC_L if cls[i] == PTR else KC_I, bfcap[i], arr[i]))
+            else:
+                simple = False
+        anyk = any(k == KC_ANY for k, _, _ in leaves)
+        has_ld = any(k == KC_LD for k, _, _ in leaves)
+        if simple and not anyk:
+            def place(min_p):
+                pos = mx = 0
+                for k, bf, ar in leaves:
+                    sz = KC_SIZE[k]
+                    if top == 1:
+                        pos = 0
+                    if min_p and bf:
+                        pos += 1
+                    else:
+                        pos = (pos + sz * 8 - 1) // (sz * 8) * (sz * 8) + sz * 8 * (1 if not ar else (1 if min_p else 3))
+                    mx = max(mx, pos)
+                al = max(KC_SIZE[k] for k, _, _ in leaves)
+                return ((mx + 7) // 8 + al - 1) // al * al
+            minsz, maxsz = place(True), place(False)
+            ld_mix = has_ld and len(leaves) > 1 and not (top == 1 and all(k == KC_LD for k, _, _ in leaves))
+            d["H_W_REG"] = minsz <= 16 and not ld_mix
+            d["H_W_MEM"] = (16 < maxsz <= maxsize) or (ld_mix and maxsz <= maxsize)
+            plain2 = n == 2 and top == 0 and not any(arr)
+            d["H_W_SS"] = plain2 and all(k in (KC_F, KC_D) for k, _, _ in leaves) and maxsz > 8
+            d["H_W_X87"] = has_ld and not ld_mix and not any(ar for _, _, ar in leaves)
+        else:
+            d["H_W_REG"] = not has_ld
     return ["%s=%d" % (k, 1 if v else 0) for k, v in d.items()]
 
 
-def ob(mode, shape, top, feat=F_BF, nsub=2, maxsize=64, timeout=900, solver="cadical"):
+def ob(mode, shape, kcls, top, ksub=(KC_C, KC_L), feat=F_BF, excl=0, maxsize=None, timeout=900, solver="cadical", tag=""):
     n = len(shape)
-    name = "%s.%s.%s%s%s" % ("layout" if mode == 0 else "pass", TOP_NAME[top], shape_name(shape),
-                              ".bf" if feat & F_BF else "", ".subarr" if feat & F_SUBARR else "")
+    nsub = len(ksub)
+    kcls = list(kcls)
+    sizes = []
+    for i, c in enumerate(shape):
+        cls = c & 7
+        sizes += [KC_SIZE[kcls[i]]] if cls == ARITH else [8] if cls == PTR else [4] if cls == ENUM else [KC_SIZE[x] for x in ksub]
+    mina = min(sizes)
+    if maxsize is None:
+        # keeps update_field_layout's backward scan (steps of the member alignment) at about 16 steps, but large
+        # enough for the declaration without bit-fields and with one-element arrays
+        def agg_size(szs, union):
+            pos = mx = 0
+            for z in szs:
+                pos = 0 if union else (pos + z - 1) // z * z
+                pos += z
+                mx = max(mx, pos)
+            al = max(szs)
+            return (mx + al - 1) // al * al, al
+        msz = []
+        for i, c in enumerate(shape):
+            cls = c & 7
+            if cls in AGGR:
+                z, al = agg_size([KC_SIZE[x] for x in ksub], cls in (NESTED_U, ANON_U))
+                msz.append((z, al))
+            else:
+                z = KC_SIZE[kcls[i]] if cls == ARITH else 8 if cls == PTR else 4
+                msz.append((z, z))
+        pos = mx = 0
+        for z, al in msz:
+            pos = 0 if top == 1 else (pos + al - 1) // al * al
+            pos += z
+            mx = max(mx, pos)
+        al = max(a for _, a in msz)
+        need = (mx + al - 1) // al * al
+        maxsize = min(64, max(16 * mina, need))
+    scan = maxsize // mina + 4
+    name = "%s.%s.%s%s%s%s" % ("layout" if mode == 0 else "pass", TOP_NAME[top],
+                                "-".join(member_name(shape[i], kcls[i], ksub) for i in range(n)),
+                                "" if feat & F_BF else ".nobf", ".subarr" if feat & F_SUBARR else "", tag)
     what = {0: "sizeof, _Alignof, offset of every member, absolute bit position/width of every named bit-field",
             1: "classify_arg eightbyte classes, MIR block type, hidden-pointer return, result registers, argument "
                "registers for every count of registers already used"}[mode]
-    members = "; ".join("%s%s" % (CLS_DESC[c & 7], " [1..%d]" % (2 if (c & 7) in AGGR else 3) if c & ARR else "") for c in shape)
+    members = "; ".join(member_desc(shape[i], kcls[i], ksub) for i in range(n))
+    bf = ""
+    if feat & F_BF:
+        bf = ", integer/enum members optionally bit-fields of every width" + \
+             {0: " incl. unnamed and zero-width", 1: " (named, or unnamed of width 0)", 2: " (named or unnamed, width > 0)",
+              3: " (named only)", 7: " (named only, none directly after a bit-field of a narrower declared type)"}[excl]
     return Ob(name, "C08/layout.c",
-              defs=["H_MODE=%d" % mode, "H_N=%d" % n, "H_SHAPE={%s}" % ",".join(str(c) for c in shape), "H_FEAT=%d" % feat,
-                    "H_TOP=%d" % top, "H_NSUB=%d" % nsub, "H_MAXSIZE=%d" % maxsize] + witness_defs(mode, shape, feat, top, nsub),
-              loops=loops(n, nsub, maxsize), unwind=8, checks="functional", object_bits=12, timeout=timeout, solver=solver,
+              defs=["H_MODE=%d" % mode, "H_N=%d" % n, "H_SHAPE={%s}" % ",".join(str(c) for c in shape),
+                    "H_KCLS={%s}" % ",".join(str(k) for k in kcls), "H_KSUB={%s}" % ",".join(str(k) for k in ksub),
+                    "H_FEAT=%d" % feat, "H_EXCL=%d" % excl, "H_TOP=%d" % top, "H_NSUB=%d" % nsub, "H_MAXSIZE=%d" % maxsize]
+                   + witness_defs(mode, shape, kcls, feat, top, nsub, excl, maxsize),
+              loops=loops(n, nsub, scan), unwind=8, checks="functional", object_bits=12, timeout=timeout, solver=solver,
               native_cc=[os.path.join(REPO, "mir.c")],
-              sample="every %s { %s } with arithmetic types over {%s}%s; nested/anonymous aggregates have %d arithmetic "
-                     "members%s; sizeof <= %d: %s"
-                     % (TOP_NAME[top], members, KINDS,
-                        ", integer/enum members optionally bit-fields of every width incl. unnamed and zero-width" if feat & F_BF else "",
-                        nsub, " (first one an array)" if feat & F_SUBARR else "", maxsize, what))
-
-
-def shapes(tier):
-    T, P, E, S, A, U, AU = ARITH, PTR, ENUM, NESTED, ANON, NESTED_U, ANON_U
-    one = [[T], [T | ARR], [P], [E], [S], [A], [U], [AU], [S | ARR]]
-    two = [[T, T], [T | ARR, T], [T, T | ARR], [T, P], [E, T], [T, S], [U, T], [T, A], [AU, T]]
-    three = [[T, T, T], [T, S, T], [T, AU, T]]
-    if tier == "quick":
-        return one + two + three
-    two += [[P, T], [T, E], [P | ARR, T], [S, S], [A, AU], [S | ARR, T], [T, U | ARR], [E, E], [T | ARR, T | ARR],
-            [S, T], [T, U], [A, T], [T, AU], [U, U], [AU, A]]
-    three += [[T, T | ARR, T], [T, T, P], [E, T, T], [T | ARR, T, T], [T, T, T | ARR], [S, T, T], [T, T, U], [A, T, T],
-              [T, T, AU], [T, U, T], [T, A, T], [T, S, AU]]
-    four = [[T, T, T, T], [T, T, T | ARR, T], [T, S, T, T], [T, T, AU, T]]
-    return one + two + three + four
+              sample="every %s { %s }%s%s; sizeof <= %d: %s"
+                     % (TOP_NAME[top], members, bf, " (first member of nested aggregates an array)" if feat & F_SUBARR else "",
+                        maxsize, what))
 
 
 def obligations(tier):
+    T, P, E, S, A, U, AU = ARITH, PTR, ENUM, NESTED, ANON, NESTED_U, ANON_U
+    C, B, SH, I, L, F, D, LD, ANY = KC_C, KC_B, KC_S, KC_I, KC_L, KC_F, KC_D, KC_LD, KC_ANY
+    quick = tier == "quick"
+    to = 600 if quick else 1500
     obs = []
-    to = 600 if tier == "quick" else 1500
+    # --- the two recorded layout findings, smallest shape that shows each (expected: violated / known) ---
+    obs.append(ob(0, [T, T], [I, I], 0, excl=1, timeout=to, tag=".finding-zero-width-bit-field"))
+    obs.append(ob(0, [T, T], [C, I], 0, excl=2, timeout=to, tag=".finding-unnamed-bit-field"))
+    obs.append(ob(0, [T, T, T], [C, I, L], 0, excl=3, timeout=to, tag=".finding-bit-field-after-narrower-unit"))
     for mode in (0, 1):
-        for sh in shapes(tier):
-            for top in (0, 1):
-                obs.append(ob(mode, sh, top, timeout=to))
-        if tier != "quick":
-            for sh in ([ARITH, NESTED], [ANON_U, ARITH], [NESTED], [NESTED_U]):
+        ex = 3 if mode == 0 else 0   # layout: re-proved without the two findings; passing: assumes equal layout anyway
+        tg = ".named-bf" if mode == 0 else ""
+        # one member: type fully symbolic
+        for top in (0, 1):
+            obs.append(ob(mode, [T], [ANY], top, excl=ex, maxsize=64, timeout=to, tag=tg))
+            obs.append(ob(mode, [T | ARR], [ANY], top, excl=ex, maxsize=64, timeout=to, tag=tg))
+            for sh in ([P], [E], [S], [AU]) if quick else ([P], [E], [S], [A], [U], [AU], [S | ARR], [P | ARR]):
+                obs.append(ob(mode, sh, [ANY], top, excl=ex, timeout=to, tag=tg))
+        # two members: every pair of size classes
+        classes = [C, I, L, D, LD] if quick else [C, B, SH, I, L, F, D, LD]
+        for a in classes:
+            for b in classes:
                 for top in (0, 1):
-                    obs.append(ob(mode, sh, top, feat=F_BF | F_SUBARR, timeout=to))
+                    if quick and top == 1 and a != b and (a, b) not in ((I, LD), (L, D), (C, L)):
+                        continue
+                    obs.append(ob(mode, [T, T], [a, b], top, excl=ex, timeout=to, tag=tg))
+        for top in (0, 1):
+            for sh, kc in (([T | ARR, T], [C, I]), ([T, T | ARR], [I, D]), ([T, P], [I, ANY]), ([E, T], [ANY, C]),
+                           ([T, S], [I, ANY]), ([U, T], [ANY, I]), ([T, A], [C, ANY]), ([AU, T], [ANY, L])):
+                obs.append(ob(mode, sh, kc, top, excl=ex, timeout=to, tag=tg))
+        # three / four members
+        ex3 = 7 if mode == 0 else 0
+        triples = [[C, I, L], [L, C, D]] if quick else \
+                  [[C, I, L], [I, I, I], [L, C, D], [C, C, C], [I, C, I], [L, I, C], [D, F, F], [LD, C, L], [SH, C, I], [B, I, B],
+                   [I, L, I], [C, SH, L], [F, I, F], [L, L, L]]
+        for kc in triples:
+            for top in (0, 1) if not quick else (0,):
+                obs.append(ob(mode, [T, T, T], kc, top, excl=ex3, timeout=to, tag=tg))
+        if not quick:
+            for top in (0, 1):
+                for sh, kc in (([T, S, T], [C, ANY, I]), ([T, AU, T], [I, ANY, C]), ([T, T | ARR, T], [C, I, L]),
+                               ([S, T, T], [ANY, C, I]), ([T, T, A], [I, C, ANY]), ([T, S | ARR], [I, ANY])):
+                    obs.append(ob(mode, sh, kc, top, excl=ex3, timeout=to, tag=tg))
+                for kc in ([C, I, C, L], [I, I, I, I], [C, SH, I, L]):
+                    obs.append(ob(mode, [T, T, T, T], kc, top, excl=ex3, timeout=to, tag=tg))
+                for ks in ((I, I), (L, C), (D, I), (LD, C)):
+                    obs.append(ob(mode, [T, S], [C, ANY], top, ksub=ks, excl=ex, timeout=to, tag=tg))
+                    obs.append(ob(mode, [AU, T], [ANY, I], top, ksub=ks, excl=ex, timeout=to, tag=tg))
+                obs.append(ob(mode, [T, S], [I, ANY], top, feat=F_BF | F_SUBARR, excl=ex, timeout=to, tag=tg))
+        elif mode == 0:
+            obs.append(ob(mode, [T, AU, T], [I, ANY, C], 0, excl=ex3, timeout=to, tag=tg))
     return obs
 
 
